@@ -115,3 +115,50 @@ Example valid_accepted : evaluate (fun r => r) (Plain 2 1) 5 (IntRows 2 [[0; 2];
 Proof. reflexivity. Qed.
 Example local_accepted : evaluate (fun r => r) (Local 2) 8 (IntRows 4 [[0; 1; 3; 4]]) = Some [[0; 1; 3; 4]].
 Proof. reflexivity. Qed.
+
+(* ------------------------------------------------------------------------------------------------- *)
+(** * Machine integers: why check_cuts_array converts every integer dtype to int64 (fixes D22, D24)     *)
+(* ------------------------------------------------------------------------------------------------- *)
+(** [wrapu w] / [wraps w]: the value a w-bit unsigned / two's-complement signed integer holds after an
+    arithmetic operation whose exact result is x (NumPy integer arithmetic wraps silently). *)
+Definition wrapu (w x : Z) : Z := x mod 2 ^ w.
+Definition wraps (w x : Z) : Z := (x + 2 ^ (w - 1)) mod 2 ^ w - 2 ^ (w - 1).
+
+Lemma wraps_exact w x : 1 <= w -> - 2 ^ (w - 1) <= x < 2 ^ (w - 1) -> wraps w x = x.
+Proof.
+  intros Hw Hx. unfold wraps.
+  assert (Hp : 2 ^ w = 2 * 2 ^ (w - 1)).
+  { replace w with (1 + (w - 1)) at 1 by lia. rewrite Z.pow_add_r by lia. reflexivity. }
+  rewrite Z.mod_small by lia. lia.
+Qed.
+
+(** D22 (pinned code): on an UNSIGNED array the row differences wrap, so a DECREASING row passes the
+    test "all differences >= min_size" *)
+Theorem unsigned_diff_accepts_decreasing_row_refuted :
+  exists (w a b min_size : Z), b < a /\ 0 <= b /\ a < 2 ^ w /\ 1 <= min_size /\ min_size <= wrapu w (b - a).
+Proof. exists 64, 5, 3, 1. unfold wrapu. repeat split; try lia. vm_compute. discriminate. Qed.
+
+(** D24 (pinned code): position arithmetic in the cuts' own narrow dtype wraps: CUSUM's n * before_n for the
+    valid int8 cut (0, 20, 40) is 800, which int8 holds as 32 *)
+Theorem narrow_dtype_product_wraps_refuted :
+  exists (w n nb : Z), 0 < nb < n /\ n < 2 ^ (w - 1) /\ wraps w (n * nb) <> n * nb.
+Proof. exists 8, 40, 20. repeat split; try lia. vm_compute. discriminate. Qed.
+
+(** after the conversion to int64: every value of every narrower or unsigned dtype below 2^63 is represented
+    exactly, differences of two positions are exact, and products of positions of series shorter than 2^31 rows are exact *)
+Theorem int64_holds_every_narrower_value w x : 1 <= w <= 63 -> 0 <= x < 2 ^ w -> wraps 64 x = x.
+Proof.
+  intros Hw Hx. apply wraps_exact; [lia|].
+  assert (2 ^ w <= 2 ^ 63) by (apply Z.pow_le_mono_r; lia). change (64 - 1) with 63. lia.
+Qed.
+
+Theorem int64_differences_exact a b : 0 <= a < 2 ^ 62 -> 0 <= b < 2 ^ 62 -> wraps 64 (b - a) = b - a.
+Proof. intros Ha Hb. apply wraps_exact; [lia|]. change (64 - 1) with 63. change (2 ^ 63) with (2 * 2 ^ 62). lia. Qed.
+
+Theorem int64_position_products_exact n a : 0 <= a <= n -> n < 2 ^ 31 -> wraps 64 (n * a) = n * a.
+Proof.
+  intros Ha Hn. apply wraps_exact; [lia|]. change (64 - 1) with 63.
+  assert (n * a <= n * n) by (apply Z.mul_le_mono_nonneg_l; lia).
+  assert (n * n < 2 ^ 31 * 2 ^ 31) by (apply Z.mul_lt_mono_nonneg; lia).
+  change (2 ^ 31 * 2 ^ 31) with (2 ^ 62) in *. change (2 ^ 63) with (2 * 2 ^ 62). nia.
+Qed.
